@@ -1350,13 +1350,19 @@ pub fn fuzz(a: &HashMap<String, String>) -> i32 {
 // C16: the same script under different polling disciplines
 
 fn outcome(s: &Sim) -> Value {
+    let mut pubrels: Vec<u16> = s.wire.packets.iter().filter(|p| p.t == mqtt::PUBREL).map(|p| p.id.unwrap_or(0)).collect();
+    pubrels.sort();
     json!({
         "ops": s.op_results.iter().map(|(k, v)| json!([k, v["r"], v["kind"], v["rc"], v["x"]])).collect::<Vec<_>>(),
         "items": s.items.iter().map(|(k, v)| json!([k, v.iter().map(|i| i["x"].clone()).collect::<Vec<_>>()])).collect::<Vec<_>>(),
         "ctx": s.ctx_results.iter().map(|v| json!([v["r"], v["kind"], v["rc"]])).collect::<Vec<_>>(),
         // the order in which the actor takes packets and messages that are ready at the same time is pseudo-random
         // (futures::select!), so the wire is compared per source: requests in submission order, acknowledgements in arrival order
-        "wire": s.wire.packets.iter().filter(|p| !matches!(p.t, mqtt::PUBACK | mqtt::PUBREC | mqtt::PUBCOMP)).map(|p| p.abs()).collect::<Vec<_>>(),
+        // A PUBREL is submitted when its caller is polled after the PUBREC was handled, and whether a PUBREC that is ready
+        // together with a queued request is handled before or after it (the writer may block in between) is again the
+        // pseudo-random choice: its place among the first-phase requests is not an outcome, the set of PUBRELs written is.
+        "wire": s.wire.packets.iter().filter(|p| !matches!(p.t, mqtt::PUBACK | mqtt::PUBREC | mqtt::PUBCOMP | mqtt::PUBREL)).map(|p| p.abs()).collect::<Vec<_>>(),
+        "pubrels": pubrels,
         "acks": s.wire.packets.iter().filter(|p| matches!(p.t, mqtt::PUBACK | mqtt::PUBREC | mqtt::PUBCOMP)).map(|p| p.abs()).collect::<Vec<_>>(),
     })
 }
@@ -1407,6 +1413,15 @@ pub fn disccmp(a: &HashMap<String, String>) -> i32 {
         cfg.steps = 50;
         cfg.endings = vec!["none"]; // simultaneous terminating causes may legally be reported in either order
         cfg.unsolicited_pct = 0; // an acknowledgement nobody waits for yet races with the request it would match
+        if cfg.w_wr > 0 {
+            // With a writer that may block, one poll of the actor handles only part of what is ready, and which part (the
+            // packet or the queued request first) is the library's pseudo-random select: whether a cancellation recorded in
+            // the script finds its target already completed then differs between two runs of the SAME discipline. Scripts
+            // with blocking writers therefore carry no cancellations here (cancellations are compared in the profiles
+            // without blocking; clauses (1) and (2) of C16 are checked on every run by the trace specification).
+            cfg.w_cancel = 0;
+            cfg.w_dropst = 0;
+        }
         let rseed = seed.wrapping_mul(7919).wrapping_add(i as u64);
         let p = Params { run: base * 3, fam: "disccmp".into(), r: None, disc: "wake".into(), ..Default::default() };
         // Receive Maximum absent: with a small quota the outcome of a publish legitimately depends on whether a
@@ -1438,7 +1453,7 @@ pub fn disccmp(a: &HashMap<String, String>) -> i32 {
 }
 
 fn first_diff(a: &Value, b: &Value) -> String {
-    for key in ["ops", "items", "ctx", "wire", "acks"] {
+    for key in ["ops", "items", "ctx", "wire", "pubrels", "acks"] {
         if a[key] != b[key] {
             let (x, y) = (a[key].as_array().cloned().unwrap_or_default(), b[key].as_array().cloned().unwrap_or_default());
             for i in 0..x.len().max(y.len()) {
